@@ -342,9 +342,22 @@ def render(lang: str, funcs: list, indent: str = "    ", gap: int = 1, prefix: s
         for f in others:
             for _ in range(gap):
                 o.emit(0, "")
+            # a function may be DEFINED inside any compound statement of the module: the arms of try / if / match, a loop, a with block
+            heads = {"else": ["if FLAG_%s:", 1, "pass", 0, "else:"], "except": ["try:", 1, "import fast_%s", 0, "except ImportError:"],
+                     "finally": ["try:", 1, "pass", 0, "finally:"], "case": ["match MODE_%s:", 1, "case 1:"], "if": ["if FLAG_%s:"],
+                     "with": ["with open_%s():"], "elif": ["if FLAG_%s:", 1, "pass", 0, "elif OTHER_%s:"]}.get(f.get("placed"))
+            level = 0
+            if heads:
+                u = uid()
+                for h in heads:
+                    if isinstance(h, int):
+                        level = h
+                    else:
+                        o.emit(level, h.replace("%s", u))
+                level = 2 if f["placed"] == "case" else 1
             fact(f, o.lineno)
-            o.emit(0, "%sdef %s(a, items):" % ("async " if f.get("async") else "", f["name"]))
-            _py_block(o, f["block"], 1, uid)
+            o.emit(level, "%sdef %s(a, items):" % ("async " if f.get("async") else "", f["name"]))
+            _py_block(o, f["block"], level + 1, uid)
         if methods:
             for _ in range(gap):
                 o.emit(0, "")
